@@ -69,11 +69,12 @@ Inductive fname :=
   | FKv          (* datahub-backup.kv *)
   | FSeen        (* datahub-backup.lastseen         - the name StoreLastID writes *)
   | FSeenMgr     (* datahub-backupManager.lastseen  - the name LoadLastID reads in the pinned tree *)
-  | FStorageId.  (* DATAHUB_BACKUPID *)
+  | FStorageId   (* DATAHUB_BACKUPID *)
+  | FCopy.       (* rsync mode: the copy of the store directory below the location *)
 
 Definition fname_eqb (a b : fname) : bool :=
   match a, b with
-  | FKv, FKv | FSeen, FSeen | FSeenMgr, FSeenMgr | FStorageId, FStorageId => true
+  | FKv, FKv | FSeen, FSeen | FSeenMgr, FSeenMgr | FStorageId, FStorageId | FCopy, FCopy => true
   | _, _ => false
   end.
 
@@ -201,6 +202,7 @@ Definition R_NONE : N := 0.     (* the step was not a backup *)
 Definition R_RETURNED : N := 1. (* Run returned after DoNativeBackup returned nil *)
 Definition R_REFUSED : N := 2.  (* logger.Panicf("invalid backup location ...") *)
 Definition R_SKIPPED : N := 4.  (* isRunning was still set *)
+Definition R_FAILED : N := 5.   (* rsync mode: rsync exited non-zero, the error is logged, Run returns *)
 
 (** Run *)
 Definition run_backup (v : variant) (st : state) : state * N :=
@@ -216,6 +218,30 @@ Definition run_backup (v : variant) (st : state) : state * N :=
       ({| s_src := s_src st; s_store_id := s_store_id st; s_fs := f1; s_cursor := s_cursor st;
           s_running := true; s_snap := s_snap st |}, R_REFUSED).
 
+(** Run in rsync mode (useRsync): DoRsyncBackup = MkdirAll + `rsync -avz --delete <store> <location>`.
+    [ok] = rsync exits 0 (the copy then is the store directory as it is); a non-zero exit is
+    logged, nothing is assumed about the copy (the stand-in of the driver leaves it alone) and -
+    unlike after the panics - the function goes on to `isRunning = false`. *)
+Definition run_backup_rsync (st : state) (ok : bool) : state * N :=
+  if s_running st then (st, R_SKIPPED)
+  else
+    let '(valid, f1) := valid_location st in
+    if valid then
+      if ok then
+        ({| s_src := s_src st; s_store_id := s_store_id st; s_fs := fs_set f1 FCopy (DEntries (s_src st));
+            s_cursor := s_cursor st; s_running := false; s_snap := Some (s_src st) |}, R_RETURNED)
+      else
+        ({| s_src := s_src st; s_store_id := s_store_id st; s_fs := f1; s_cursor := s_cursor st;
+            s_running := false; s_snap := s_snap st |}, R_FAILED)
+    else
+      ({| s_src := s_src st; s_store_id := s_store_id st; s_fs := f1; s_cursor := s_cursor st;
+          s_running := true; s_snap := s_snap st |}, R_REFUSED).
+
+(** a hub write with its stamp: (store version afterwards, dataset, entity, value, deleted) *)
+Definition wr := (N * N * N * N * bool)%type.
+Definition apply_writes (src : list entry) (ws : list wr) : list entry :=
+  fold_left (fun s w => let '(m, ds, k, x, del) := w in src_put s m ds k x del) ws src.
+
 (** histories *)
 Inductive op :=
   | OWrite (m ds k v : N) (del : bool)  (* one StoreEntities; [m] = store version afterwards *)
@@ -223,9 +249,20 @@ Inductive op :=
   | ORestart (m : N)                    (* Store.Close (sequence release) + NewStore (new lease) + NewBackupManager *)
   (* the environment: somebody else changes what is found at the backup location *)
   | OSetLocId (b : bytes)               (* the location's DATAHUB_BACKUPID is replaced (another store's id, emptied, ...) *)
-  | ODelLocId.                          (* ... or removed *)
+  | ODelLocId                           (* ... or removed *)
+  (* a native run during which a writer commits [post]: Badger's dump reads a snapshot, so these
+     commits come after what the run dumps and before the run ends (the driver forces exactly this
+     schedule from the stream's last log line); they only happen if the run gets as far as the dump *)
+  | OBackupConc (post : list wr)
+  | OBackupRsync (ok : bool)            (* one tick in rsync mode; [ok] = rsync's exit status is 0 *)
+  (* Store.Delete ("delete all datasets"): Close, RemoveAll(store location), Open - a NEW Badger
+     (version [m] afterwards) and a NEW DATAHUB_BACKUPID [sid]; the BackupManager object lives on *)
+  | ODeleteAll (m : N) (sid : bytes).
 
 Definition is_env (o : op) : bool := match o with OSetLocId _ | ODelLocId => true | _ => false end.
+Definition is_delete (o : op) : bool := match o with ODeleteAll _ _ => true | _ => false end.
+Definition is_rsync (o : op) : bool := match o with OBackupRsync _ => true | _ => false end.
+Definition is_native (o : op) : bool := match o with OBackup | OBackupConc _ => true | _ => false end.
 
 Definition step (v : variant) (st : state) (o : op) : state * N :=
   match o with
@@ -238,6 +275,16 @@ Definition step (v : variant) (st : state) (o : op) : state * N :=
         s_cursor := load_last_id v (s_fs st); s_running := false; s_snap := s_snap st |}, R_NONE)
   | OSetLocId b => (with_fs st (fs_set (s_fs st) FStorageId (DBytes b)), R_NONE)
   | ODelLocId => (with_fs st (fs_remove (s_fs st) FStorageId), R_NONE)
+  | OBackupConc post =>
+    let '(st1, r) := run_backup v st in
+    if r =? R_RETURNED then
+      ({| s_src := apply_writes (s_src st1) post; s_store_id := s_store_id st1; s_fs := s_fs st1;
+          s_cursor := s_cursor st1; s_running := s_running st1; s_snap := s_snap st1 |}, r)
+    else (st1, r)
+  | OBackupRsync ok => run_backup_rsync st ok
+  | ODeleteAll m sid =>
+    ({| s_src := src_put [] m sys_ds 0 m false; s_store_id := sid; s_fs := s_fs st;
+        s_cursor := s_cursor st; s_running := s_running st; s_snap := s_snap st |}, R_NONE)
   end.
 
 Fixpoint run (v : variant) (ops : list op) (st : state) : state :=
@@ -264,6 +311,18 @@ Definition restore_ok (st : state) : Prop :=
     exists file, fs_get (s_fs st) FKv = Some (DEntries file) /\
                  forall ds k, latest ds k (badger_load file) = latest ds k s.
 
+(** rsync mode: the restored hub is the copy *)
+Definition restore_ok_rsync (st : state) : Prop :=
+  forall s, s_snap st = Some s -> fs_get (s_fs st) FCopy = Some (DEntries s).
+
+(** ** 6. The cursor file's encoding: StoreLastID writes binary.LittleEndian.PutUint64, LoadLastID
+    reads binary.LittleEndian.Uint64 (the model keeps the number; Proofs: round trip below 2^64) *)
+Fixpoint le_enc (k : nat) (n : N) : bytes :=
+  match k with O => [] | S k' => (n mod 256) :: le_enc k' (n / 256) end.
+Fixpoint le_dec (b : bytes) : N :=
+  match b with [] => 0 | x :: b' => x + 256 * le_dec b' end.
+Definition le64_enc (n : N) : bytes := le_enc 8 n.
+
 (** the location belongs to somebody else: it carries an id file whose content is not ours *)
 Definition loc_id (f : fs) : option bytes :=
   match fs_get f FStorageId with Some (DBytes b) => Some b | _ => None end.
@@ -280,7 +339,9 @@ Definition optnat_eqb (a b : option nat) : bool :=
   match a, b with Some x, Some y => Nat.eqb x y | None, None => true | _, _ => false end.
 
 Record obs_step := { x_cursor : N; x_disk : option N; x_res : N; x_grew : bool;
-                     x_locid : option bytes; x_touched : bool }.
+                     x_locid : option bytes; x_touched : bool;
+                     x_sid : bytes;        (* the store's own id file afterwards *)
+                     x_running : bool }.   (* BackupManager.isRunning afterwards *)
 
 Fixpoint trace (v : variant) (ops : list op) (st : state) : list obs_step * state :=
   match ops with
@@ -289,7 +350,8 @@ Fixpoint trace (v : variant) (ops : list op) (st : state) : list obs_step * stat
     let '(st1, r) := step v st o in
     let x := {| x_cursor := s_cursor st1; x_disk := seen_file (s_fs st1); x_res := r;
                 x_grew := negb (optnat_eqb (kv_len (s_fs st)) (kv_len (s_fs st1)));
-                x_locid := loc_id (s_fs st1); x_touched := negb (fs_eqb (s_fs st) (s_fs st1)) |} in
+                x_locid := loc_id (s_fs st1); x_touched := negb (fs_eqb (s_fs st) (s_fs st1));
+                x_sid := s_store_id st1; x_running := s_running st1 |} in
     let '(xs, stn) := trace v ops' st1 in
     (x :: xs, stn)
   end.
